@@ -102,7 +102,7 @@ Proof.
 Qed.
 
 Lemma batch_start_attempt s b s' o :
-  step_notime (mkCfg V2 0 false false 0 0 0 0 0 0 [] 0 0 0) s (IBatchStart b) = Some (s', o) ->
+  step_notime (mkCfg V2 0 false false 0 0 0 0 0 0 [] 0 0 0 0) s (IBatchStart b) = Some (s', o) ->
   exists bt op, find_batch b (batches s) = Some bt /\ nth_error (b_ops bt) (b_bumped bt) = Some op
     /\ forall obj, get_attempt (attempts s') obj =
          if Nat.eqb (o_obj op) obj then S (get_attempt (attempts s) obj) else get_attempt (attempts s) obj.
